@@ -310,6 +310,38 @@ def run(ctx: Ctx) -> None:
         raise AnalysisError(f'C18.R1: only {n_sub} typed subscripts / {n_cmp} typed comparisons found in the MDCEV modules')
     _closed_forms(ctx)
     _epsilon_scaling(ctx)
+    # C18.R5: the numeric value of a utility part is the value of the SAME table of expressions with and without estimation results
+    ctx.rule('C18.R5', 'the calculate_<part>_utility methods evaluate the same table of expressions (self.<part>_utilities) whether estimation results are attached or not, and the table named by the method; '
+             'the bisection of the dual variable may run long enough to bring the largest initial bracket (np.finfo(float64).max, about 2**1024) down to working precision')
+    n5 = 0
+    for c_ in [prog.cls('mdcev.mdcev', 'Mdcev')] + prog.subclasses(prog.cls('mdcev.mdcev', 'Mdcev')):
+        for mname, m_ in c_.methods.items():
+            mm = re.fullmatch(r'calculate_(\w+)_utility', mname)
+            if not mm:
+                continue
+            tables = [re.match(r'self\.(\w+)\[', unparse(r_.value)) for r_ in walk_no_nested(m_.node) if isinstance(r_, ast.Return) and r_.value is not None]
+            tables = [t_.group(1) for t_ in tables if t_]
+            if len(tables) < 2:
+                ctx.add('C18.R5', f'{c_.name}.{mname}:table', None, m_, f'{mname} is not in the expected form (one return per case, each evaluating an entry of a table of expressions)', 'table')
+                continue
+            n5 += 1
+            want = f'{mm.group(1)}_utilities'
+            okt = set(tables) == {want}
+            ctx.add('C18.R5', f'{c_.name}.{mname}:table', okt, m_, f'{mname} evaluates self.{want} in every case' if okt else
+                    f'{mname} evaluates {" / ".join("self." + t_ for t_ in tables)}: with estimation results attached another part of the utility is computed than without (and than the symbolic utility uses)', str(tables), positive=True)
+    if n5 < 2:
+        raise AnalysisError(f'C18.R5: only {n5} calculate_<part>_utility methods found')
+    fb = prog.cls('mdcev.mdcev', 'Mdcev').methods['forecast_bisection_one_draw']
+    caps = [x for x in walk_no_nested(fb.node) if isinstance(x, ast.For) and isinstance(x.iter, ast.Call) and call_name(x.iter) == 'range' and len(x.iter.args) == 1 and isinstance(x.iter.args[0], ast.Constant) and isinstance(x.iter.args[0].value, int)]
+    huge = any('np.finfo(np.float64).max' in unparse(x) for x in ast.walk(prog.cls('mdcev.mdcev', 'Mdcev').methods['identification_chosen_alternatives'].node) if isinstance(x, ast.Return))
+    if len(caps) == 1 and huge:
+        cap = caps[0].iter.args[0].value
+        okc = cap >= 1100
+        ctx.add('C18.R5', 'Mdcev.forecast_bisection_one_draw:iterations', okc, (fb.file, caps[0].lineno), f'up to {cap} halvings of a bracket that can start at np.finfo(float64).max (2**1024)' if okc else
+                f'the bisection stops after {cap} halvings, but the upper bound of the dual variable can start at np.finfo(float64).max (about 2**1024): after {cap} halvings the bracket is still wider than {2.0 ** (1024 - cap):.3g}, '
+                'so in the corner solution (only the outside good consumed) the budget is not exhausted', str(cap), positive=True)
+    else:
+        ctx.add('C18.R5', 'Mdcev.forecast_bisection_one_draw:iterations', None, fb, 'the iteration cap of the bisection / the largest initial bracket are not in the expected form', 'cap')
     M = prog.cls('mdcev.mdcev', 'Mdcev')
     init = M.methods['__init__']
     from ..pattern import find as _find
